@@ -374,6 +374,16 @@ fn directed<S: Setup>() -> Vec<CaseResult> {
             out.push(one::<S>(&prog, &publics, &privates, &cfg, key, false).count(format!("directed/{name}"), 1));
         }
     }
+    // every first appearance of a private input in an ALU row (operand positions, repeated, result
+    // connected back to the input), see `pgen::first_use_programs`
+    if matches!(S::NAME, "babybear-d1" | "koalabear-d4" | "koalabear-d5-quintic") {
+        for (name, prog, pu, pr) in p3r_verif::pgen::first_use_programs::<S>() {
+            for cfg in [PackCfg::default_cfg(), PackCfg { public_lanes: 2, alu_lanes: 3, min_height: 1, horner_k: 2, optimized_profile: false }] {
+                let key = format!("{}:directed:first-use:{name}:{}", S::NAME, cfg.key());
+                out.push(one::<S>(&prog, &pu, &pr, &cfg, key, false).count("directed/first-use", 1));
+            }
+        }
+    }
     out
 }
 
